@@ -524,7 +524,7 @@ PROPS["C16"]["runs"].append(
 
 PROPS["C10"]["runs"].append(
     dict(name="msg.Box.HandleMessage (silent-mode buffer)", dir="msg", files=["msg_c15.go.txt"], entry="verifH_C10_box", args=["-realhex", "-preempt", "0", "-unwind", "128"], count=["panic:", "deadlock:"],
-         expect_covers=["returned"], bounds={"topic length": "{0,3,8,32}", "payload": "0..2 bytes", "type/source": "all", "state": "fresh / topic started / sender at the per-topic limit"}))
+         expect_covers=["returned"], bounds={"topic length": "{0,3,8,32}", "payload": "0..2 bytes", "type/source": "all", "state": "fresh / topic started / sender at the per-topic limit / sender over its quota of buffered topics; then another peer and the local party use the box"}))
 PROPS["C04"]["runs"] += [
     _bls("verifH_C04_classify", ["bls_c04.go.txt"], name="TBLS.ClassifyMsg: rounds and classes", count=["assert:C04-", "panic:"], covers=["classified", "rejected"], bounds={"payloads": "two, 2 symbolic bytes each"}),
     _ps("verifH_C04_classify", ["ps_c04.go.txt"], name="TPS.ClassifyMsg: rounds and classes", count=["assert:C04-", "panic:"], covers=["classified", "rejected"], bounds={"payloads": "two, 2 symbolic bytes each"}),
@@ -770,3 +770,12 @@ PROPS["C09"]["runs"].append(
 PROPS["C09"]["runs"].append(
     _ps("verifH_C09_cheating_prover", ["ps_c09b.go.txt"], name="PS: a proof of knowledge built by the real prover for another message entry or another witness is rejected", count=["assert:C09-", "panic:"], covers=["end"],
         bounds={"message length": 1, "deviation": "one message entry (the slot of m' included) or the witness h', by any non-zero amount (symbolic choice)"}))
+
+PROPS["C12"]["runs"].append(
+    dict(name="two Sign calls on one topic that overlap while the first is still setting up (its synchroniser factory call has not returned)", dir="threshold", files=["thr_c12.go.txt"], entry="verifH_C12_setup_window",
+         args=_THR_CONC + ["-preempt", "0", "-det"], count=["assert:C12-", "panic:", "deadlock:"], expect_covers=["end"],
+         bounds={"calls": "Sign (blocked inside SyncFactory), Sign on the same topic, then the first continues", "schedule": "canonical"}))
+
+PROPS["C17"]["runs"].append(
+    dict(name="a peer that is temporarily unreachable gets every accepted message once its listener is up", dir="net", files=["net_c17.go.txt", "net_model.go.txt"], entry="verifH_C17_late_listener", args=_NET_ARGS17, replay_args=_NET_REPLAY,
+         count=["assert:C17-", "panic:", "deadlock:"], expect_covers=["end"], bounds={"refused connection attempts": "0..2 (symbolic), then the peer is there", "messages": 3}))
